@@ -241,8 +241,12 @@ def translate_own(evs):
     reset = evs[0]
     if reset.get("family") != "own":
         return None, "family"
-    if reset.get("burst") or reset.get("sched") in ("free",) or reset.get("spin"):
+    if reset.get("sched") in ("free",) or reset.get("spin"):
         return None, "uncontrolled"
+    # every line but the probe-loop observation comes from an emit made at a linearization point (or from a yield whose
+    # guard is monotone), so scenarios with bursts are bound too - without the observation, which is taken a moment
+    # after the return and may then already include another command's step
+    bursty = bool(reset.get("burst"))
     out, cmds, info, lb_of, called = [None], [], [], {}, set()
     for e in evs[1:]:
         ev, c = e["ev"], e.get("c")
@@ -265,6 +269,10 @@ def translate_own(evs):
             out.append({"a": "Call" if e.get("slot", 0) == 0 else "RdCall", "c": c})
         elif ev == "e_update_lb":
             out.append({"a": "UpdateSlot", "c": c})
+        elif ev == "e_not_found":
+            if c is None:
+                return None, "lookup outside a command"
+            out.append({"a": "NotFound", "c": c})
         elif ev == "y_dep_healthy":
             out.append({"a": "WaitOk", "c": c})
         elif ev == "e_install":
@@ -289,7 +297,7 @@ def translate_own(evs):
                 return None, "result " + e["res"]
             out.append({"a": "PreRet", "c": c})
             out.append({"a": "Return", "c": c, "res": e["res"]})
-        elif ev == "probing_obs":
+        elif ev == "probing_obs" and not bursty:
             if any(t not in lb_of for t in e["tgs"]):
                 return None, "unknown target"
             out.append({"a": "Probing", "lbs": sorted({lb_of[t] for t in e["tgs"]})})
